@@ -595,7 +595,7 @@ func TestCheck(t *testing.T) {
 	depth := 3
 	cfgs := []config{
 		{"/24 1dns lease10m serverid=gw", "10.1.1.0/24", "10.1.1.1", "", []string{"8.8.8.8"}, 10 * time.Minute},
-		{"/30 2dns lease1m serverid-set", "10.1.1.0/30", "10.1.1.1", "10.1.1.1", []string{"8.8.8.8", "9.9.9.9"}, time.Minute},
+		{"/30 2dns lease1m serverid-set", "10.1.1.0/30", "10.1.1.1", "10.1.1.1", []string{"8.8.8.8", "1.2.3.4"}, time.Minute},
 	}
 	if run.Thorough() {
 		depth = 4
